@@ -9,7 +9,7 @@ PROP = "C15"
 def parse_label(lab):
     m = re.match(r"(\w+)(?:\((.*)\))?", lab)
     act, args = m.group(1), [a.strip().strip('"') for a in (m.group(2) or "").split(",") if a.strip()]
-    if act in ("Start", "Cancel", "Crash", "Freeze"):
+    if act in ("Start", "Cancel", "Crash", "Freeze", "Ghost"):
         return {"op": act, "c": "-", "v": 0}
     if act == "Set":
         return {"op": "Set", "c": args[0], "v": int(args[1])}
@@ -33,6 +33,8 @@ def gen(tier, rng, cov):
             # an ungraceful death (socket file left behind) followed by a reattach
             s += 2 * any(x.startswith("Crash") and any(y.startswith("Reattach") for y in w[i + 1:]) for i, x in enumerate(w))
             s += 2 * any(x.startswith("Again") for x in w)
+            # a host that connected and went away without a word, then the plugin is used again
+            s += 2 * any(x.startswith("Ghost") and any(y.startswith(("Get", "Reattach")) for y in w[i + 1:]) for i, x in enumerate(w))
             # a plugin that answers nothing any more, killed through a reattached client
             s += 3 * any(x.startswith("Freeze") and any(y.startswith("Kill") and "c1" not in y for y in w[i + 1:]) for i, x in enumerate(w))
             return s
@@ -42,7 +44,8 @@ def gen(tier, rng, cov):
             # (the shutdown request to a stopped net/rpc plugin is only bounded by the yamux keep-alive, C04's thorough tier)
             pool = good if proto == "grpc" else [w for w in good if not any(x.startswith("Freeze") for x in w)]
             # every clause-specific shape is represented (two words each), the rest is a random sample
-            feats = [lambda w: any(x.startswith("Crash") and any(y.startswith("Reattach") for y in w[i + 1:]) for i, x in enumerate(w)),
+            feats = [lambda w: any(x.startswith("Ghost") and any(y.startswith(("Get", "Reattach")) for y in w[i + 1:]) for i, x in enumerate(w)),
+                     lambda w: any(x.startswith("Crash") and any(y.startswith("Reattach") for y in w[i + 1:]) for i, x in enumerate(w)),
                      lambda w: any(x.startswith("Again") for x in w),
                      lambda w: any(x.startswith("Freeze") and any(y.startswith("Kill") and "c1" not in y for y in w[i + 1:]) for i, x in enumerate(w)),
                      lambda w: any(x.startswith("Cancel") for x in w),
